@@ -5,7 +5,7 @@ for d in /verif/seeded/*/; do
   S=/var/tmp/yq-seed-$$
   rm -rf $S; mkdir -p $S; rsync -a --exclude target --exclude .git /repo/ $S/
   (cd $S && git init -q . 2>/dev/null; git apply $d/patch.diff) || { echo "$name: patch does not apply"; continue; }
-  (cd /verif && YQV_REPO=$S ./check $prop > /tmp/recheck.txt 2>&1); rc=$?
+  (cd /verif && YQV_EVIDENCE=/var/tmp/yq-scratch-evidence YQV_REPLAYS=/var/tmp/yq-scratch-replays YQV_REPO=$S ./check $prop > /tmp/recheck.txt 2>&1); rc=$?
   grep -E "^(VIOLATION|UNDECIDED|KNOWN-FINDING|property|obligation failed)" /tmp/recheck.txt | cut -c1-300 > $d/check_output.txt
   python3 - "$d" "$rc" <<'PY'
 import json,sys
